@@ -188,6 +188,7 @@ pub fn check_scans(
                     Move::Last => "last",
                     Move::Next => "next",
                     Move::Prev => "prev",
+                    Move::ToEnd => "to_end",
                 })
                 .collect();
             out.push((
